@@ -6,6 +6,13 @@ the lbuf model with ln_glob bits travelling with the lines) on the same bytes.  
 from the property text by tracking line identities: every line of the original range that still exists is
 visited exactly once in increasing order, never an inserted line; the body runs iff the line matches (does
 not match for g!/v) at the time of the visit; one undo restores the text from before the global.
+
+Three streams of cases: (1) one global on a buffer of 1..8 lines; (2) "hist": histories of two to four successive
+globals in one script on 3..10 lines, where earlier ones often ABORT (their command list inserts/deletes and then
+fails on an unset mark, a failed search or an address out of range) -- every later global must visit only lines of
+ITS OWN range (no stale ln_glob mark may survive an aborted global); (3) "big": buffers of 260..2051 lines sitting on
+the growth boundaries of lbuf's line table (512, 1024, 2048) with command lists that insert 1..3 lines per visit, so
+that the table (and ln_glob with it) is re-allocated DURING the scan while marks are pending.
 """
 import json, os, re, glob as _glob
 import vlib
@@ -14,6 +21,8 @@ from props import c06
 GROUP = 'ex'
 TRUSTED = ['tools/props/c15.py GlobRef + tools/props/c06.py RefEd: the Python reference (property text; conventions in design.d/C15.md)',
            "Python's re module on the generated loop-free patterns (literals, ., [set], ^, $; IGNORECASE)"]
+
+MODEL_MAX_LINES = 1100
 
 PATS = ['a', 'b', 'a[34]', '[ab]', 'x', '^a', '3$', 'a.', 'nomatch', '[1-4]', 'V', 'b[2-6]']
 
@@ -44,9 +53,18 @@ def body_blocks(body):
     return out
 
 
+def cap_of(n):
+    """capacity of lbuf's line table after the buffer has held at most n lines (512, 1024, ...; grows when len >= capacity)"""
+    c = 512
+    while n >= c:
+        c *= 2
+    return c
+
+
 class GlobRef(c06.RefEd):
     """the reference editor with substitute and global; strict = the property, low = ec_glob's scan rule
-    (restart the search for the next marked line at min(i, current line))"""
+    (restart the search for the next marked line at min(i, current line)).  Surviving lines never change their
+    relative order (no command of the fragment moves a line), so `pending` (original order) is also in row order."""
     def __init__(self, file_lines, files, low=False):
         super().__init__(file_lines, files)
         self.low = low
@@ -55,6 +73,24 @@ class GlobRef(c06.RefEd):
         self.low_events = 0         # a still-unvisited original line ended up above min(i, current line)
         self.depth = 0
         self.last_ok = True
+        self.hw = len(file_lines)   # most lines the buffer ever held (decides the capacity of the line table)
+        self.grow_pending = 0       # the table grew during a scan while original lines were still to be visited
+        self.aborts = 0             # top-level globals ended by a failing command list
+        self.edits = 0
+        self._pv = -1
+        self._pm = {}
+
+    def splice(self, b, e, texts):
+        super().splice(b, e, texts)
+        self.edits += 1
+        if len(self.lines) > self.hw:
+            self.hw = len(self.lines)
+
+    def posmap(self):
+        if self._pv != self.version:
+            self._pm = {l[0]: j for j, l in enumerate(self.lines)}
+            self._pv = self.version
+        return self._pm
 
     def run(self, c):
         k = c['cmd']
@@ -71,6 +107,7 @@ class GlobRef(c06.RefEd):
                 nt = rx.sub(lambda m: c['rep'], t, count=0 if c.get('g') else 1)
                 if nt != t or rx.search(t):
                     self.lines[i][1] = nt
+                    self.edits += 1
             return True
         if k == 'g':
             return self.glob(c)
@@ -97,12 +134,13 @@ class GlobRef(c06.RefEd):
         top = self.depth == 1
         pending = list(todo[1:])
         cur_id = todo[0]
-        i = b
+        skipped = False                          # low mode only: a pending line lies above the scan start
         while cur_id is not None:
-            idx = [j for j, l in enumerate(self.lines) if l[0] == cur_id]
-            if not idx:
+            i = self.posmap().get(cur_id)
+            if i is None:
                 break
-            i = idx[0]
+            v0 = self.version
+            hw0 = self.hw
             hit = rx.search(self.lines[i][1]) is not None
             runit = hit != neg
             if top:
@@ -115,21 +153,27 @@ class GlobRef(c06.RefEd):
                 for x in c['body']:
                     ok = self.run(x)
                 if not ok:
+                    if top:
+                        self.aborts += 1
                     break
-            present = [l[0] for l in self.lines]
-            pending = [p for p in pending if p in present]
+            if not runit and self.version == v0 and not skipped:
+                cur_id = pending.pop(0) if pending else None        # nothing moved: the next pending line is the next marked row
+                continue
+            pm = self.posmap()
+            pending = [p for p in pending if p in pm]
+            if top and pending and cap_of(self.hw) != cap_of(hw0):
+                self.grow_pending += 1
             lim = min(i, self.cur) if runit else i
-            below = [p for p in pending if present.index(p) < lim]
+            below = [p for p in pending if pm[p] < lim]
             if below and top:
                 self.low_events += 1
             if self.low:
-                cand = [p for p in pending if present.index(p) >= lim]
-                cand.sort(key=present.index)
+                skipped = bool(below)
+                cand = [p for p in pending if pm[p] >= lim]
                 cur_id = cand[0] if cand else None
                 # ec_glob never comes back to the skipped ones unless a later body moves the scan start up again
             else:
-                pend_sorted = sorted(pending, key=lambda p: todo.index(p))
-                cur_id = pend_sorted[0] if pend_sorted else None
+                cur_id = pending[0] if pending else None
             if cur_id is not None:
                 pending.remove(cur_id)
         self.depth -= 1
@@ -138,47 +182,85 @@ class GlobRef(c06.RefEd):
 
 # ---------------------------------------------------------------------------------------------
 
+def globs_of(case):
+    return case['globs'] if 'globs' in case else [case['glob']]
+
+
+def nblocks_of(case):
+    nb = case.get('nblocks', 0)
+    return list(nb) if isinstance(nb, list) else [nb]
+
+
 def build_script(case):
     lines = ['ec @A0@']
     for step in case.get('pre', []):
         for c in step:
             lines += r_cmd(c)
-    g = case['glob']
-    gl = r_cmd(g)
-    lines.append('ec @B@')
-    lines.append(gl[0])
-    lines += body_blocks(g['body']) * case['nblocks']
-    lines += ['ec @C@', '%p', 'ec @D@', 'u', 'ec @E@', '%p', 'ec @F@', 'q!']
+    for g, nb in zip(globs_of(case), nblocks_of(case)):
+        gl = r_cmd(g)
+        lines.append('ec @B@')
+        lines.append(gl[0])
+        lines += body_blocks(g['body']) * nb
+        lines += ['ec @C@', '%p']
+    lines += ['ec @D@', 'u', 'ec @E@', '%p', 'ec @F@', 'q!']
     return ('\n'.join(lines) + '\n').encode()
 
 
 MARK_RE = re.compile(rb'@(A0|B|C|D|E|F)@')
 
 
-def parse_out(out):
+def parse_out(out, nglobs=1):
     i = out.find(b'@A0@')
     if i < 0:
         return None
     toks = MARK_RE.split(out[i:])
     names = toks[1::2]
-    if [n.decode() for n in names] != ['A0', 'B', 'C', 'D', 'E', 'F']:
+    if [n.decode() for n in names] != ['A0'] + ['B', 'C'] * nglobs + ['D', 'E', 'F']:
         return None
     texts = toks[2::2]
-    return {'during': c06.clean(texts[1]), 'after': c06.clean(texts[2]), 'undone': c06.clean(texts[4])}
+    return {'during': [c06.clean(texts[1 + 2 * k]) for k in range(nglobs)],
+            'after': [c06.clean(texts[2 + 2 * k]) for k in range(nglobs)],
+            'undone': c06.clean(texts[2 * nglobs + 2])}
+
+
+_REF_MEMO = {}
 
 
 def reference(case, low=False):
-    ed = GlobRef(case['file'], {}, low=low)
+    """-> (expected observables, the reference editor after the run).  Memoised for the big cases (the oracle is
+    O(lines) per executed command list)."""
+    key = (id(case), low)
+    m = _REF_MEMO.get(key)
+    if m is not None and m[0] is case:
+        return m[1], m[2]
+    ed = GlobRef(case['file'], {k: list(v) for k, v in case.get('files', {}).items()}, low=low)
     ed.lenient = True
     for step in case.get('pre', []):
         for c in step:
             ed.run(c)
-    before = [l[1] for l in ed.lines]
-    ed.out = []
-    ed.run(case['glob'])
-    during = [x[1] if x[0] != 'N' else str(x[1]) for x in ed.out if x[0] != 'E']
-    return {'during': during, 'after': [l[1] for l in ed.lines], 'undone': before}, ed
+    pre_edits = ed.edits
+    want = {'during': [], 'after': [], 'undone': None}
+    ed.per = []
+    before = None
+    for g in globs_of(case):
+        before = [l[1] for l in ed.lines]
+        ed.out = []
+        v0, x0, e0 = len(ed.visits), ed.execs, ed.edits
+        ed.run(g)
+        want['during'].append([x[1] if x[0] != 'N' else str(x[1]) for x in ed.out if x[0] != 'E'])
+        want['after'].append([l[1] for l in ed.lines])
+        ed.per.append({'visits': ed.visits[v0:], 'execs': ed.execs - x0, 'edits': ed.edits - e0})
+    want['undone'] = before
+    # `u` takes back the most recent step that edited the buffer: when the last global made no edit and something
+    # before it did, the property does not say what `u` restores -> that observable is then not judged by the oracle
+    ed.undo_defined = ed.per[-1]['edits'] > 0 or (pre_edits == 0 and len(ed.per) == 1)
+    if len(case['file']) > 64:
+        _REF_MEMO[key] = (case, want, ed)
+    return want, ed
 
+
+# ---------------------------------------------------------------------------------------------
+# generators
 
 def gen_body_cmd(rng, nested_ok=True):
     t = rng.below(24)
@@ -203,8 +285,86 @@ def gen_body_cmd(rng, nested_ok=True):
     return {'cmd': 's', 'pat': '$', 'rep': ' V'}
 
 
+def gen_fail_cmd(rng):
+    """a command whose address does not resolve: unset mark, failed search, line past the end, line before the first"""
+    t = rng.below(6)
+    if t < 2:
+        a = [({'base': ('m', rng.choice('zy')), 'offs': []}, None)]
+    elif t < 3:
+        a = [({'base': (rng.choice('/?'), 'nomatch'), 'offs': []}, None)]
+    elif t < 4:
+        a = [({'base': ('$',), 'offs': [rng.choice([1, 1, 2])]}, None)]
+    elif t < 5:
+        a = [({'base': ('n', rng.choice([99, 40, 1000])), 'offs': []}, None)]
+    else:
+        a = [({'base': ('n', 1), 'offs': [-2]}, None)]
+    k = rng.below(5)
+    if k < 3:
+        return {'cmd': 'p', 'addr': a}
+    if k < 4:
+        return {'cmd': 'd', 'addr': a}
+    return {'cmd': 's', 'addr': a, 'pat': '$', 'rep': ' V'}
+
+
+def gen_abort_body(rng):
+    """insert and/or delete (often ABOVE the current line or at the ends, so that marked lines move), then fail"""
+    absaddr = lambda: rng.choice([[({'base': ('n', 0), 'offs': []}, None)], [({'base': ('n', 1), 'offs': []}, None)],
+                                  [({'base': ('n', 1), 'offs': []}, ','), ({'base': ('n', 2), 'offs': []}, None)],
+                                  [({'base': ('$',), 'offs': []}, None)], [], [({'base': None, 'offs': [-1]}, None)],
+                                  [({'base': ('n', 2), 'offs': []}, None)]])
+    body = []
+    for _ in range(rng.choice([1, 1, 2, 3])):
+        t = rng.below(10)
+        a = absaddr()
+        zero = bool(a) and a[-1][0]['base'] == ('n', 0)
+        if t < 3:
+            body.append({'cmd': 'pu', 'addr': a, 'reg': 'r'})
+        elif t < 5:
+            body += [{'cmd': 'y'}, {'cmd': 'pu', 'addr': a}]
+        elif t < 7:
+            k = rng.choice('ai') if zero else rng.choice('aic')
+            body.append({'cmd': k, 'addr': a, 'text': ['Na9 top' + str(rng.below(10)) for _ in range(rng.choice([1, 1, 2]))]})
+        elif t < 9:
+            body.append({'cmd': 'd', 'addr': [] if zero else a})
+        else:
+            body.append({'cmd': 's', 'pat': '$', 'rep': ' W'})
+    body.append(gen_fail_cmd(rng))
+    return body
+
+
 def has_text(body):
     return any(x['cmd'] in ('a', 'i', 'c') or (x['cmd'] == 'g' and has_text(x['body'])) for x in body)
+
+
+def nested_text(body):
+    return any(x['cmd'] == 'g' and has_text(x['body']) for x in body)
+
+
+def gen_plain_body(rng):
+    body = [gen_body_cmd(rng) for _ in range(rng.choice([1, 1, 1, 2, 2, 3]))]
+    body = [x for x in body[:-1] if x['cmd'] != 'g'] + body[-1:]      # a nested global takes the rest of the line: only last
+    if rng.chance(1, 25):       # bodies that delete lines above and then move the current line down (tracks_low at risk)
+        body = [{'cmd': 's', 'pat': '$', 'rep': ' V'},
+                {'cmd': 'd', 'addr': [({'base': None, 'offs': [-2]}, ','), ({'base': None, 'offs': [-1]}, None)]},
+                {'cmd': 'p', 'addr': [({'base': rng.choice([('$',), None]), 'offs': [] if rng.chance(1, 2) else [1]}, None)]}]
+        if body[2]['addr'][0][0]['base'] is None and not body[2]['addr'][0][0]['offs']:
+            body[2]['addr'][0][0]['offs'] = [2]
+    return body
+
+
+def settle(case):
+    """fill in the number of text blocks each global consumes; None when the reference cannot predict it"""
+    try:
+        _, e1 = reference(case, low=False)
+        _, e2 = reference(case, low=True)
+    except Exception:
+        return None
+    globs = globs_of(case)
+    if any(has_text(g['body']) for g in globs) and [p['execs'] for p in e1.per] != [p['execs'] for p in e2.per]:
+        return None
+    nb = [p['execs'] for p in e1.per]
+    case['nblocks'] = nb if 'globs' in case else nb[0]
+    return case
 
 
 def gen_case(rng):
@@ -221,59 +381,210 @@ def gen_case(rng):
         lo = rng.range(1, n)
         addr = [({'base': ('n', lo), 'offs': []}, ','), ({'base': ('n', rng.range(lo, n)), 'offs': []}, None)]
     for _ in range(20):
-        body = [gen_body_cmd(rng) for _ in range(rng.choice([1, 1, 1, 2, 2, 3]))]
-        body = [x for x in body[:-1] if x['cmd'] != 'g'] + body[-1:]      # a nested global takes the rest of the line: only last
-        if rng.chance(1, 25):       # bodies that delete lines above and then move the current line down (tracks_low at risk)
-            body = [{'cmd': 's', 'pat': '$', 'rep': ' V'},
-                    {'cmd': 'd', 'addr': [({'base': None, 'offs': [-2]}, ','), ({'base': None, 'offs': [-1]}, None)]},
-                    {'cmd': 'p', 'addr': [({'base': rng.choice([('$',), None]), 'offs': [] if rng.chance(1, 2) else [1]}, None)]}]
-            if body[2]['addr'][0][0]['base'] is None and not body[2]['addr'][0][0]['offs']:
-                body[2]['addr'][0][0]['offs'] = [2]
+        body = gen_plain_body(rng)
+        if rng.chance(1, 12):
+            body = [x for x in body[:2] if x['cmd'] != 'g'] + [gen_fail_cmd(rng)]
+            if rng.chance(1, 2):
+                body.append({'cmd': 's', 'pat': '$', 'rep': ' V'})      # a failing command that is not the last does not end the global
         g = {'cmd': 'g', 'addr': addr, 'spell': rng.choice(['g', 'g', 'g', 'g!', 'v']), 'pat': rng.choice(PATS), 'body': body}
         case = {'file': flines, 'pre': pre, 'glob': g, 'nblocks': 0}
-        if any(x['cmd'] == 'g' and has_text(x['body']) for x in body):
+        if nested_text(body):
             continue            # text blocks inside a nested global: the count per outer execution is not static
-        try:
-            _, e1 = reference(case, low=False)
-            _, e2 = reference(case, low=True)
-        except Exception:
+        if settle(case) is None:
             continue
-        if has_text(body) and e1.execs != e2.execs:
-            continue
-        case['nblocks'] = e1.execs
         return case
     return {'file': flines, 'pre': pre, 'glob': {'cmd': 'g', 'addr': addr, 'spell': 'g', 'pat': 'a', 'body': [{'cmd': 's', 'pat': '$', 'rep': ' V'}]}, 'nblocks': 0}
 
 
+def gen_range(rng, n):
+    rt = rng.below(10)
+    if rt < 2:
+        return []
+    if rt < 3:
+        return '%'
+    lo = rng.range(1, n) if rng.chance(1, 2) else min(n, rng.choice([1, 1, 2, 2, 3]))
+    hi = rng.range(lo, n) if rng.chance(2, 3) else min(n, lo + rng.below(3))
+    return [({'base': ('n', lo), 'offs': []}, ','), ({'base': ('n', hi), 'offs': []}, None)]
+
+
+def gen_hist(rng):
+    """two to four successive globals; the earlier ones mostly abort after having inserted or deleted lines"""
+    n = rng.choice([3, 4, 5, 6, 7, 8, 10])
+    flines = [rng.choice('ab') + str(i + 1) for i in range(n)]
+    pre = [[{'cmd': 'rs', 'reg': 'r', 'text': ['r1'] + (['r2'] if rng.chance(1, 2) else [])}]]
+    for _ in range(20):
+        k = rng.choice([2, 2, 2, 3, 4])
+        globs = []
+        for j in range(k):
+            last = j == k - 1
+            if (not last and rng.chance(3, 4)) or (last and rng.chance(1, 8)):
+                body = gen_abort_body(rng)
+            else:
+                body = gen_plain_body(rng)
+                if last and rng.chance(1, 2):
+                    body = [rng.choice([{'cmd': 's', 'pat': '$', 'rep': ' V'}, {'cmd': 'p'}, {'cmd': 'd'}])]
+            pat = rng.choice(PATS[:4] + ['[ab]', '[ab]']) if not last else rng.choice(PATS + ['[ab]', '[0-9]'])
+            globs.append({'cmd': 'g', 'addr': gen_range(rng, n), 'spell': rng.choice(['g', 'g', 'g', 'g!', 'v']), 'pat': pat, 'body': body})
+        if any(nested_text(g['body']) for g in globs):
+            continue
+        case = {'kind': 'hist', 'file': flines, 'pre': pre, 'globs': globs, 'nblocks': [0] * k}
+        if settle(case) is None:
+            continue
+        return case
+    g = {'cmd': 'g', 'addr': '%', 'spell': 'g', 'pat': 'a', 'body': [{'cmd': 's', 'pat': '$', 'rep': ' V'}]}
+    return {'kind': 'hist', 'file': flines, 'pre': pre, 'globs': [g, dict(g)], 'nblocks': [0, 0]}
+
+
+BIG_DENSE = ['^l', '[0-9]', 'l', '^[lm]']
+BIG_SPARSE = ['7$', '[27]$', '^m', '77$', '0[0-9]$', '^l5', '9.$']
+
+
+def gen_big_body(rng):
+    """command lists that insert 1..3 lines per visit (the line count climbs through the capacity of the line table)"""
+    num = lambda v: [({'base': ('n', v), 'offs': []}, None)]
+    where = rng.choice([[], [], [], [], [({'base': None, 'offs': [-1]}, None)], [({'base': ('$',), 'offs': []}, None)], num(0), num(1),
+                        [({'base': None, 'offs': [1]}, None)]])
+    zero = bool(where) and where[-1][0]['base'] == ('n', 0)
+    text = lambda: [rng.choice(['New', 'Nl7 ins', 'Nm77', 'Nx']) + str(rng.below(10)) for _ in range(rng.choice([1, 1, 2, 3]))]
+    t = rng.below(12)
+    if t < 3:
+        body = [{'cmd': 'y'}, {'cmd': 'pu', 'addr': where}]
+    elif t < 4:
+        body = [{'cmd': 'y', 'reg': 'a'}, {'cmd': 'pu', 'addr': where, 'reg': 'a'}, {'cmd': 'pu', 'reg': 'a'}]
+    elif t < 6:
+        body = [{'cmd': 'pu', 'addr': where, 'reg': 'r'}]
+    elif t < 9:
+        k = rng.choice('ai') if zero else rng.choice('aaiic')
+        body = [{'cmd': k, 'addr': where, 'text': text()}]
+        if k == 'c' and len(body[0]['text']) < 2:
+            body[0]['text'].append('Nc2')
+    elif t < 11:
+        return [{'cmd': 'r', 'addr': where, 'path': 'g'}]           # prints a message: nothing else in this command list
+    else:
+        body = [{'cmd': 'a', 'text': text()}, {'cmd': 'pu', 'addr': where, 'reg': 'r'}]
+    if rng.chance(1, 4):
+        body.insert(0, {'cmd': 's', 'pat': '$', 'rep': ' V'})
+    if rng.chance(1, 6):
+        body.append({'cmd': 'p'})
+    if rng.chance(1, 10):
+        body.append({'cmd': 'd', 'addr': [({'base': None, 'offs': [rng.choice([-1, 1])]}, None)]})
+    return body
+
+
+def gen_big(rng, allow_2048):
+    """buffers on the growth boundaries of the line table; most cases make the table grow while marks are pending"""
+    best = None
+    for att in range(8):
+        shape = rng.below(16)
+        dense = rng.chance(1, 3)
+        if shape < 7:
+            bound = 512
+        elif shape < 13:
+            bound = 1024
+        elif allow_2048:
+            bound, dense = 2048, False
+        else:
+            bound = 512
+        if shape == 0 or shape == 7:
+            n = rng.range(bound // 2 + 4, bound - 12)          # crossing in the middle of a dense scan
+            dense = True
+        else:
+            n = rng.range(bound - 7, bound + 3)                # 505..515, 1017..1027, 2041..2051
+        flines = [('m' if (i * 7 + att) % 8 == 3 else 'l') + str(i + 1) for i in range(n)]
+        files = {'g': ['Ng%d' % j for j in range(rng.range(1, 3))]}
+        pre = [[{'cmd': 'rs', 'reg': 'r', 'text': ['r%d' % j for j in range(rng.range(1, 3))]}]]
+        pk = rng.below(10)
+        if pk == 0:         # lines deleted before the global: the capacity is that of the larger buffer (control: no growth at this size)
+            pre.append([{'cmd': 'd', 'addr': [({'base': ('n', 1), 'offs': []}, ','), ({'base': ('n', rng.range(1, 12)), 'offs': []}, None)]}])
+        elif pk == 1:       # lines added before the global
+            pre.append([{'cmd': 'pu', 'addr': [({'base': ('$',), 'offs': []}, None)], 'reg': 'r'}])
+        pat = rng.choice(BIG_DENSE if dense else BIG_SPARSE)
+        rt = rng.below(8)
+        if rt < 5:
+            addr = []
+        elif rt < 6:
+            lo = rng.range(1, 20)
+            addr = [({'base': ('n', lo), 'offs': []}, ','), ({'base': ('$',), 'offs': []}, None)]
+        else:
+            lo = rng.range(1, n - 40)
+            addr = [({'base': ('n', lo), 'offs': []}, ','), ({'base': ('n', rng.range(lo + 20, n - 8)), 'offs': []}, None)]
+        g = {'cmd': 'g', 'addr': addr, 'spell': 'g' if not rng.chance(1, 10) else 'v', 'pat': pat, 'body': gen_big_body(rng)}
+        case = {'kind': 'big', 'file': flines, 'files': files, 'pre': pre, 'globs': [g], 'nblocks': [0]}
+        if rng.chance(1, 5):    # a second global right behind: stale or lost marks of the first would show here
+            case['globs'].append({'cmd': 'g', 'addr': [({'base': ('n', 2), 'offs': []}, ','), ({'base': ('n', 9), 'offs': []}, None)], 'spell': 'g', 'pat': '[0-9]',
+                                  'body': [{'cmd': 's', 'pat': '$', 'rep': ' W'}]})
+            case['nblocks'].append(0)
+        if settle(case) is None:
+            continue
+        _, ed = reference(case)
+        if ed.grow_pending:
+            return case
+        if best is None:
+            best = case
+        if att >= 2 and rng.chance(1, 3):
+            break               # keep some cases without growth as controls
+    return best
+
+
 def model_request(case):
-    return 'run 1 %s %s' % (vlib.hx(''.join(l + '\n' for l in case['file']).encode()), build_script(case).hex())
+    extra = ' '.join('%s=%s' % (nme.encode().hex(), vlib.hx(''.join(l + '\n' for l in ls).encode()))
+                     for nme, ls in sorted(case.get('files', {}).items()))
+    return ('run 1 %s %s %s' % (vlib.hx(''.join(l + '\n' for l in case['file']).encode()), build_script(case).hex(), extra)).rstrip()
+
+
+# ---------------------------------------------------------------------------------------------
+
+def brief(exp, obs):
+    """long listings: the neighbourhood of the first difference"""
+    if len(exp) <= 40 and len(obs) <= 40:
+        return exp, obs
+    k = 0
+    while k < min(len(exp), len(obs)) and exp[k] == obs[k]:
+        k += 1
+    lo = max(0, k - 3)
+    return ({'lines': len(exp), 'first difference at index': k, 'window': exp[lo:k + 6]},
+            {'lines': len(obs), 'first difference at index': k, 'window': obs[lo:k + 6]})
 
 
 def check_case(vi, case, mans):
     files = {'f': ''.join(l + '\n' for l in case['file']).encode()}
+    for nme, ls in case.get('files', {}).items():
+        files[nme] = ''.join(l + '\n' for l in ls).encode()
     sc = build_script(case)
-    r = vlib.run_ex(vi, sc, files=files, args=['f'], timeout=20)
+    big = len(case['file']) > 64
+    t0 = 60 if big else 20
+    r = vlib.run_ex(vi, sc, files=files, args=['f'], timeout=t0)
     if r.timed_out:
-        r = vlib.run_ex(vi, sc, files=files, args=['f'], timeout=60)
+        r = vlib.run_ex(vi, sc, files=files, args=['f'], timeout=3 * t0)
     elif r.crashed():
-        r = vlib.run_ex(vi, sc, files=files, args=['f'], timeout=20)
+        r = vlib.run_ex(vi, sc, files=files, args=['f'], timeout=t0)
     if r.crashed():
         return 'crash', {'what': 'the editor crashed or hung on a global command (rc=%s, timed out=%s)' % (r.rc, r.timed_out), 'stderr': r.err[-500:].decode('latin-1')}
-    obs = parse_out(r.out)
+    ng = len(globs_of(case))
+    obs = parse_out(r.out, ng)
     if obs is None:
         return 'violation', {'what': 'probe markers damaged (a text block was consumed a different number of times than the reference predicts?)',
                              'observed': r.out[-300:].decode('latin-1')}
     want, ed = reference(case)
     res = ('ok', None)
-    for key, what in (('during', 'lines printed by the executions (order and set of visited lines)'),
-                      ('after', 'buffer after the global: each original-range line that still exists is visited exactly once, in increasing order, inserted lines never'),
-                      ('undone', 'buffer after ONE undo must equal the text before the global')):
-        if obs[key] != want[key]:
-            det = {'what': what, 'expected': want[key], 'observed': obs[key], 'visits(reference)': ed.visits}
+    checks = []
+    for k in range(ng):
+        tag = '' if ng == 1 else ' (global %d of %d in this script)' % (k + 1, ng)
+        checks.append(('during', k, 'lines printed by the executions (order and set of visited lines)' + tag))
+        checks.append(('after', k, 'buffer after the global: each original-range line that still exists is visited exactly once, in increasing order, '
+                                   'inserted lines and lines outside the range never' + tag))
+    if ed.undo_defined:
+        checks.append(('undone', None, 'buffer after ONE undo must equal the text before the %sglobal' % ('' if ng == 1 else 'last ')))
+    for key, k, what in checks:
+        o = obs[key] if k is None else obs[key][k]
+        w = want[key] if k is None else want[key][k]
+        if o != w:
+            bw, bo = brief(w, o)
+            det = {'what': what, 'expected': bw, 'observed': bo, 'visits(reference)': ed.per[k if k is not None else -1]['visits'][:60]}
             kf = None
             try:
                 w2, e2 = reference(case, low=True)
-                if e2.low_events and all(obs[k] == w2[k] for k in ('during', 'after', 'undone')):
+                if e2.low_events and all(obs[kk] == w2[kk] for kk in ('during', 'after')) and (obs['undone'] == w2['undone'] or not e2.undo_defined):
                     kf = 'KF-GLOB-LOW'
             except Exception:
                 pass
@@ -284,9 +595,21 @@ def check_case(vi, case, mans):
         d, ms = c06.model_stream(mans)
         if int(d.get('F', '0')) & 3:
             return 'disagree', {'what': 'model left its fragment (flags=%s)' % d.get('F')}
-        mobs = parse_out(ms)
+        mobs = parse_out(ms, ng)
         if mobs != obs:
-            return 'disagree', {'what': 'model and implementation differ', 'implementation': obs, 'model': mobs}
+            det = {'what': 'model and implementation differ'}
+            if mobs is None:
+                det['model'] = None
+            else:
+                for key in ('during', 'after'):
+                    for k in range(ng):
+                        if mobs[key][k] != obs[key][k] and 'model' not in det:
+                            det['observable'] = '%s[%d]' % (key, k)
+                            det['model'], det['implementation'] = brief(mobs[key][k], obs[key][k])
+                if 'model' not in det:
+                    det['observable'] = 'undone'
+                    det['model'], det['implementation'] = brief(mobs['undone'], obs['undone'])
+            return 'disagree', det
     return res
 
 
@@ -304,20 +627,60 @@ def fix_json(case):
     for step in case.get('pre', []):
         for x in step:
             fc(x)
-    fc(case['glob'])
+    for g in globs_of(case):
+        fc(g)
 
 
 def corpus_cases():
     out = []
     for p in sorted(_glob.glob(os.path.join(vlib.VERIF, 'corpus', 'C15-*.json'))):
         c = json.load(open(p))
+        c.pop('comment', None)
         fix_json(c)
         out.append(c)
     return out
 
 
 def case_input(case):
-    return dict(case, script=build_script(case).decode('latin-1'))
+    d = dict(case, script=build_script(case).decode('latin-1'))
+    if len(d['script']) > 3000:
+        d['script'] = d['script'][:1500] + '\n...\n' + d['script'][-600:]
+    return d
+
+
+def simpler(case):
+    """candidate simplifications of a failing case: drop one global, drop one command of a command list"""
+    globs = globs_of(case)
+    out = []
+    if len(globs) > 1:
+        for j in range(len(globs)):
+            out.append(dict(case, globs=globs[:j] + globs[j + 1:], nblocks=[0] * (len(globs) - 1)))
+    for j, g in enumerate(globs):
+        if len(g['body']) > 1:
+            for drop in range(len(g['body'])):
+                g2 = dict(g, body=g['body'][:drop] + g['body'][drop + 1:])
+                if 'globs' in case:
+                    out.append(dict(case, globs=globs[:j] + [g2] + globs[j + 1:]))
+                else:
+                    out.append(dict(case, glob=g2))
+    return out
+
+
+def shrink_case(vi, case, det):
+    for _ in range(6):
+        for c2 in simpler(case):
+            try:
+                if settle(c2) is None:
+                    continue
+                k2, d2 = check_case(vi, c2, None)
+            except Exception:
+                continue
+            if k2 == 'violation' and not d2.get('kf') and 'markers' not in d2['what']:
+                case, det = c2, d2
+                break
+        else:
+            break
+    return case, det
 
 
 def run(ctx):
@@ -325,10 +688,12 @@ def run(ctx):
     rng = ctx.rng
     vi = vlib.build_vi(asan=False)
     model = ctx.model('ex')
-    res.rule = ('one case = one global command (pattern x range x command list from d, s, pu, a/i/c with text, p, relative addresses, nested g/v) '
-                'on a buffer of 1..8 distinct lines through the real `vi -s -e`, the extracted model and the identity-tracking reference; '
-                'compared: lines printed during the global, %p after it, %p after one undo.  non-trivial = the reference executes the body at least once '
-                'and the body changes the number of lines or uses a relative address; distinct = distinct script')
+    res.rule = ('one case = one script of one or more global commands (pattern x range x command list from d, s, y, pu, r, a/i/c with text, p, relative '
+                'addresses, failing addresses, nested g/v) through the real `vi -s -e`, the extracted model and the identity-tracking reference; '
+                'streams: single global on 1..8 lines; histories of 2..4 globals where earlier ones abort after inserting/deleting; buffers of 260..2051 '
+                'lines on the growth boundaries of the line table with inserting command lists.  Compared: lines printed during each global, %p after '
+                'each, %p after one undo.  non-trivial = the reference executes a command list at least once and it changes the number of lines or '
+                'uses an address; distinct = distinct script + file length')
     if ctx.replay:
         rp = json.load(open(ctx.replay))
         c = rp.get('input', rp)
@@ -339,28 +704,58 @@ def run(ctx):
         cases = corpus_cases()
         for i in range(2500 if ctx.quick else 60000):
             cases.append(gen_case(rng.fork('g%d' % i)))
+        for i in range(900 if ctx.quick else 20000):
+            cases.append(gen_hist(rng.fork('h%d' % i)))
+        for i in range(56 if ctx.quick else 700):
+            c = gen_big(rng.fork('b%d' % i), allow_2048=(not ctx.quick) or i % 8 == 0)
+            if c is not None:
+                cases.append(c)
     mans = [None] * len(cases)
     if model:
-        rc, outm, err = vlib.run_lines(model, [model_request(c) for c in cases], timeout=3000)
-        if rc != 0 or len(outm) != len(cases):
-            res.disagree({'what': 'model driver: rc=%d, %d answers for %d requests' % (rc, len(outm), len(cases)), 'stderr': err[-800:]})
-        else:
-            mans = outm
+        # the extracted model is list based: a dense global on 1000 lines takes it about a second, on 2000 lines several;
+        # buffers above MODEL_MAX_LINES are judged by the reference oracle alone (recorded in the evidence)
+        idx = [j for j, c in enumerate(cases) if len(c['file']) <= MODEL_MAX_LINES]
+        small = [j for j in idx if len(cases[j]['file']) <= 64]
+        bigs = [j for j in idx if len(cases[j]['file']) > 64]
+        chunks = [small[k:k + 400] for k in range(0, len(small), 400)] + [bigs[k:k + 3] for k in range(0, len(bigs), 3)]
+
+        def run_chunk(ch):
+            try:
+                rc, outm, err = vlib.run_lines(model, [model_request(cases[j]) for j in ch], timeout=3000)
+            except Exception as ex:
+                return ch, 1, [], str(ex)
+            return ch, rc, outm, err
+        for ch, rc, outm, err in vlib.pmap(run_chunk, chunks):
+            if rc != 0 or len(outm) != len(ch):
+                res.disagree({'what': 'model driver: rc=%d, %d answers for %d requests' % (rc, len(outm), len(ch)), 'stderr': err[-800:]})
+            else:
+                for j, a in zip(ch, outm):
+                    mans[j] = a
+        res.extra['cases run through the extracted model'] = len(idx)
+        res.extra['cases judged by the reference oracle only (buffer larger than %d lines)' % MODEL_MAX_LINES] = len(cases) - len(idx)
     results = vlib.pmap(lambda cm: check_case(vi, cm[0], cm[1]), list(zip(cases, mans)))
     nshr = 0
     for case, (kind, det) in zip(cases, results):
         res.evaluations += 1
-        g = case['glob']
-        for x in g['body']:
-            res.count('body ' + x['cmd'])
-        res.count('form ' + g.get('spell', 'g'))
+        globs = globs_of(case)
+        res.count('stream ' + case.get('kind', 'single'))
+        for g in globs:
+            for x in g['body']:
+                res.count('body ' + x['cmd'])
+            res.count('form ' + g.get('spell', 'g'))
         try:
             _, ed = reference(case)
-            res.count('executions %d' % min(ed.execs, 5))
-            if ed.execs and any(x['cmd'] in ('d', 'pu', 'a', 'i', 'c', 'g') or x.get('addr') for x in g['body']):
-                res.nontriv(build_script(case))
+            res.count('executions %d' % min(ed.execs, 5) if ed.execs <= 5 else 'executions > 5')
+            if ed.execs and any(x['cmd'] in ('d', 'pu', 'a', 'i', 'c', 'g', 'r') or x.get('addr') for g in globs for x in g['body']):
+                res.nontriv(build_script(case) + b'#%d' % len(case['file']))
             if ed.low_events:
                 res.count('tracks_low broken by the body (KF-GLOB-LOW territory)')
+            if ed.grow_pending:
+                res.count('line table grew during the scan while marks were pending')
+            if ed.aborts:
+                res.count('a global aborted by a failing command list')
+                if len(globs) > 1 and any(p['execs'] for p in ed.per[1:]):
+                    res.count('a later global executed after an aborted one')
         except Exception:
             pass
         if kind == 'ok':
@@ -369,22 +764,13 @@ def run(ctx):
             res.disagree(dict(det, input=case_input(case)))
             continue
         kf = (det or {}).get('kf')
-        if kf is None and kind == 'violation' and nshr < 3 and len(g['body']) > 1:
+        if kf is None and kind == 'violation' and nshr < 3:
             nshr += 1
-            for drop in range(len(g['body'])):
-                b2 = g['body'][:drop] + g['body'][drop + 1:]
-                c2 = dict(case, glob=dict(g, body=b2))
-                try:
-                    _, e1 = reference(c2)
-                    c2['nblocks'] = e1.execs
-                    k2, d2 = check_case(vi, c2, None)
-                except Exception:
-                    continue
-                if k2 == 'violation' and not d2.get('kf'):
-                    case, det = c2, d2
-                    break
+            case, det = shrink_case(vi, case, det)
         if kf:
             det = dict(det, what='a multi-command body moved a still-unvisited line above min(i, current line); ec_glob restarts its scan there and never visits it: ' + det['what'])
         res.violation(dict(det, input=case_input(case)), kf=kf)
-    for c in cases[:300:61]:
+    for c in cases[:300:61] + [c for c in cases if c.get('kind') == 'hist'][:2]:
         res.sample({'script': build_script(c).decode('latin-1')[:400]})
+    for c in [c for c in cases if c.get('kind') == 'big'][:2]:
+        res.sample({'file lines': len(c['file']), 'global': r_cmd(c['globs'][0])[0]})
